@@ -1184,6 +1184,11 @@ class Machine:
         if isinstance(base, Obj) and meth in self.decls:
             cands = [d for d in self.decls[meth] if A.body(d.node) is not None and d.qname.split("::")[-2:-1] == [base.tname]
                      and len(A.params(d.node)) >= len(args) and sum(1 for p in A.params(d.node) if not A.kids(p)) <= len(args)]
+            if len(cands) == 2:
+                # a const / non-const overload pair with the same parameters denotes one member: the mutable one subsumes it on the abstract state
+                nc = [d for d in cands if not re.search(r"\)\s*const\b", d.node.get("type", {}).get("qualType", ""))]
+                if len(nc) == 1 and len(A.params(cands[0].node)) == len(A.params(cands[1].node)):
+                    cands = nc
             if len(cands) == 1:
                 return self.run_function(cands[0], self.args_values(args, env), this=base)
         if meth == "operator()" or meth == "operator[]":
